@@ -9,8 +9,8 @@ ASSUMPTIONS = [
     "idealised: SHA-256 and address derivation are collision-free and domain-separated (symbolic hashes, structured keys); only wallets sign",
     "the real processors run natively inside solana-program-test 3.0.12 (vendored patches under harness/vendor), overflow checks off",
 ]
-FOOTPRINT = {17,21,22,42,61}
-FAMILIES = [("bank-directed", (22, 0), (22, 0), ()), ("bank-rd", (16, 140), (48, 260), ())]
+FOOTPRINT = {8,10,17,21,22,42,61}
+FAMILIES = [("bank-directed", (23, 0), (23, 0), ()), ("bank-rd", (16, 140), (48, 260), ())]
 
 def run(ctx, v):
     return bankprop.run("C06", ctx, v, FAMILIES, FOOTPRINT, monitor="C06", clause_filter=None, kinds_of_interest=['RPayDebt', 'RSweep', 'SBuySol', 'RWithdrawSol'])
